@@ -19,7 +19,8 @@ PROPS = {
                 technique="runtime monitor on a recording StateStorage (online invariant at every write) + crash/restart experiment from the storage image after every write",
                 text="At every SetState/SetPts/SetQts/SetChannelPts of every run no undelivered, unreported log entry lies at or below the written position; for the selected traces "
                      "every storage write that changes the persistent image is used as a crash point: a new Manager restarts from that image, recovers, and deliveries of both runs "
-                     "must cover the log.",
+                     "must cover the log. Half of the logs contain a channel absent from the initial storage that is first seen through a pushed update or a difference's other_updates; "
+                     "the storage wrapper is a faithful persistent store (channel pts survive SetState and the restart).",
                 note="Crash points are enumerated completely per selected trace; traces are sampled. A crash keeps exactly the storage image after the last completed write. "
                      "Too-long exemption starts at the server's too-long response (the library persists the skipped position one statement before it invokes the callback).",
                 watchdog={"quick": 900, "thorough": 5400}),
